@@ -118,3 +118,23 @@ Proof.
 Qed.
 Print Assumptions c13_below_wrap.
 Print Assumptions c05_ids_in_order.
+
+(* ---------- C11 at the driver: with the F5 repair no response can make the driver panic ---------- *)
+Lemma drv_fold {A} (g : st -> A -> st) (l : list A) : (forall s a, drv (g s a) = drv s) -> forall s, drv (fold_left g l s) = drv s.
+Proof. intros Hg. induction l as [|a l IH]; intros s; cbn [fold_left]; [reflexivity|]. now rewrite IH, Hg. Qed.
+Lemma drv_end_driver h s : drv (end_driver h s) = h. Proof. reflexivity. Qed.
+Theorem c11_driver_never_panics s e : fix5 (fx s) = true -> drv s <> EndedPanic -> e <> DrvEnd EndedPanic -> drv (step s e) <> EndedPanic.
+Proof.
+  intros F5 Hs He. destruct e; unfold step; rewrite ?F5;
+  repeat first [ exact Hs | rewrite drv_end_driver | rewrite ConnLin2.drv_drop_entry | progress cbn [drv set updop] | progress cbv zeta
+               | discriminate
+               | match goal with
+                 | |- context [match ?x with _ => _ end] => destruct x
+                 end ].
+  all: try (intros E; apply He; now rewrite E).
+Qed.
+(* as the code is, one response is enough: an operation code the driver does not know, under the id of a live search *)
+Lemma c11_driver_refuted_F5 :
+  drv (run as_is [Start (KSearch false) None; DrvOp; ServerSend (mkResp 1 ROther 0); DrvResp]) = EndedPanic.
+Proof. vm_compute. reflexivity. Qed.
+Print Assumptions c11_driver_never_panics.
